@@ -6,6 +6,7 @@
 use std::time::{Duration, Instant};
 
 mod c05;
+mod c14;
 
 fn main() {
     let args: Vec<String> = std::env::args().collect();
@@ -16,6 +17,7 @@ fn main() {
         "rl_new" => c05::rl_new(rest),
         "pos_allow" => c05::pos_allow(rest),
         "rl_window" => c05::rl_window(rest),
+        "style_build" => c14::style_build(rest),
         _ => format!("{{\"found\": false, \"error\": \"unknown routine {}\"}}", routine),
     };
     println!("{}", out);
@@ -23,4 +25,27 @@ fn main() {
 
 pub fn base() -> Instant {
     Instant::now() + Duration::from_secs(3600)
+}
+
+/// JSON string literal (the {:?} of Rust is not JSON for non-ASCII / control characters).
+pub fn js(s: &str) -> String {
+    let mut o = String::from("\"");
+    for c in s.chars() {
+        match c {
+            '"' => o.push_str("\\\""),
+            '\\' => o.push_str("\\\\"),
+            c if (c as u32) < 0x20 || (c as u32) > 0x7e => {
+                let mut b = [0u16; 2];
+                for u in c.encode_utf16(&mut b) {
+                    o.push_str(&format!("\\u{:04x}", u));
+                }
+            }
+            c => o.push(c),
+        }
+    }
+    o.push('"');
+    o
+}
+pub fn jlist(v: &[&str]) -> String {
+    format!("[{}]", v.iter().map(|s| js(s)).collect::<Vec<_>>().join(", "))
 }
